@@ -84,6 +84,11 @@ CLAIMED = {
   note="Trusted: Go type checker, go/ssa, the explorer and its branch history.",
   technique="path-sensitive SSA guard/typestate analysis (continuity guards, hand-over-hand lock order, channel fan-out sequence), custom checker",
   ref="DESIGN.md section 4 C09"),
+ "C12": dict(
+  text="Static analysis of the election code, acceptor side: every store to the accepted / committed numbers in the four acceptor handlers is a guarded monotone store under the voter mutex (new > accepted, new > committed, no outstanding commit; commit only for the accepted proposal), every other store site of the two numbers is a listed lifecycle site; the candidate's three rounds succeed only on a majority; a vote reply is selected only after the eligibility filter dominates the assignment; proposals are refused when the member's own log is newer. Interleavings of two candidates, message loss, the uniqueness of the winner and persistence across restarts are not decided (the candidate-side stores and save points are listed, not proven), hence 'other'.",
+  note="Trusted: Go type checker, go/ssa (dominator tree), the explorer's branch history; lifecycle table in internal/rules/c12.go.",
+  technique="path-sensitive SSA guarded-monotone-store analysis + dominance check of the candidate filter + who-may-store table, custom checker",
+  ref="DESIGN.md section 4 C12"),
 }
 
 NA = {
